@@ -39,6 +39,8 @@
 //!             au.<kind 0..7>.<unit>.(r<start>.<count>|i<index>).<rolehex>
 //!   end     : open | blocked (parked in a reply write that pends) | PANIC | the RequestError variant name
 //!             that ended the session
+//! A case whose session does not settle within the watchdog time (argument `--watchdog <s>`, default 4)
+//! prints the single word WEDGED; its thread is abandoned.
 use std::pin::Pin;
 use std::sync::{Arc, Mutex};
 use std::task::{Context, Poll, Waker};
@@ -517,10 +519,14 @@ fn run_case(line: &str, decode: DecodeLevel) -> String {
 pub fn main(args: &[String]) -> i32 {
     crate::util::quiet_panics();
     let mut decode = DecodeLevel::nothing();
+    let mut watchdog: u64 = 4;
     let mut i = 0;
     while i < args.len() {
         if args[i] == "--decode" && i + 1 < args.len() {
             decode = decode_level(&args[i + 1]);
+            i += 2;
+        } else if args[i] == "--watchdog" && i + 1 < args.len() {
+            watchdog = args[i + 1].parse().expect("seconds");
             i += 2;
         } else {
             eprintln!("unknown argument {:?}", args[i]);
@@ -528,11 +534,22 @@ pub fn main(args: &[String]) -> i32 {
         }
     }
     let _ = tracing_subscriber::fmt().with_writer(std::io::sink).with_max_level(tracing::Level::TRACE).try_init();
+    // every case runs on its own thread under a watchdog: a session that never settles (for instance a
+    // worker blocked for good in a std Mutex) is reported as WEDGED, its thread is abandoned and the
+    // remaining cases go on
     for line in crate::util::stdin_lines() {
         let l = line.clone();
-        match std::panic::catch_unwind(move || run_case(&l, decode)) {
+        let (tx, rx) = std::sync::mpsc::channel();
+        std::thread::spawn(move || {
+            let r = std::panic::catch_unwind(move || run_case(&l, decode));
+            let _ = tx.send(match r {
+                Ok(s) => s,
+                Err(_) => "PANIC".to_string(),
+            });
+        });
+        match rx.recv_timeout(std::time::Duration::from_secs(watchdog)) {
             Ok(s) => println!("{s}"),
-            Err(_) => println!("PANIC"),
+            Err(_) => println!("WEDGED"),
         }
     }
     0
